@@ -58,7 +58,7 @@ def make_calls(rng, req, model, per_rpc=2):
                         rdm.fill(rng, x, max_depth=2)
                     reqs.append(x)
                 call = {"service": s.name, "full_service": f"{p.package}.{s.name}", "rpc": m.name,
-                        "method": rdm.snake(m.name), "arity": ar, "form": form, "req_type": m.input_type.lstrip("."),
+                        "method": rdm.py_method(m.name), "arity": ar, "form": form, "req_type": m.input_type.lstrip("."),
                         "resp_type": m.output_type.lstrip("."), "requests": [rdm.b64(x.SerializeToString()) for x in reqs],
                         "kind": "lro" if lro else ("paged" if paged and paged != "AMBIGUOUS" else "plain"), "void": void,
                         "foreign_req": not m.input_type.lstrip(".").startswith(p.package + ".")}
